@@ -1,9 +1,9 @@
 package props
 
 import (
-	"encoding/base64"
 	"bytes"
 	"context"
+	"encoding/base64"
 	"fmt"
 	"io"
 	"math"
